@@ -29,6 +29,7 @@ type wsFake struct {
 	mu     sync.Mutex
 	w      bytes.Buffer
 	writes [][]byte
+	readDL, writeDL time.Time
 }
 
 func newWsFake(in []byte) *wsFake { return &wsFake{r: bytes.NewReader(in)} }
@@ -48,9 +49,30 @@ func (c *wsFake) Written() []byte {
 func (c *wsFake) Close() error                       { return nil }
 func (c *wsFake) LocalAddr() net.Addr                { return wsAddr{} }
 func (c *wsFake) RemoteAddr() net.Addr               { return wsAddr{} }
-func (c *wsFake) SetDeadline(t time.Time) error      { return nil }
-func (c *wsFake) SetReadDeadline(t time.Time) error  { return nil }
-func (c *wsFake) SetWriteDeadline(t time.Time) error { return nil }
+// the deadlines are remembered (not enforced): what is armed on the transport when a call returns can be looked at
+func (c *wsFake) SetDeadline(t time.Time) error {
+	c.mu.Lock()
+	c.readDL, c.writeDL = t, t
+	c.mu.Unlock()
+	return nil
+}
+func (c *wsFake) SetReadDeadline(t time.Time) error {
+	c.mu.Lock()
+	c.readDL = t
+	c.mu.Unlock()
+	return nil
+}
+func (c *wsFake) SetWriteDeadline(t time.Time) error {
+	c.mu.Lock()
+	c.writeDL = t
+	c.mu.Unlock()
+	return nil
+}
+func (c *wsFake) Deadlines() (read, write time.Time) {
+	c.mu.Lock()
+	defer c.mu.Unlock()
+	return c.readDL, c.writeDL
+}
 
 // ---- frame text form: fin.rsv.opcode.masked.key.lenForm.len.payload ----
 
